@@ -6,7 +6,8 @@
    every resume finds its task uncomputed (true for tree programs; false in general, see
    props/C03.v).  Structure as in MachineTrace.v: a relation [calm s s'] for helpers that emit no
    EvStep and leave iteration indices alone, an invariant [RInv], RInv_step, RInv_run, ... *)
-From Asynq Require Import Machine proofs.ProgProofs proofs.MachineFrame proofs.MachineC05 proofs.MachineC08.
+From Asynq Require Import Machine Seq proofs.ProgProofs proofs.MachineFrame proofs.MachineC05 proofs.MachineC08
+  proofs.MachineC01 proofs.MachineC02.
 
 Local Open Scope Z_scope.
 
@@ -652,3 +653,166 @@ Proof.
   - intros Hi. rewrite H in RO. destruct (ordered_split _ _ _ _ _ RO Hi) as (o' & Ho').
     exists o'. apply in_rev. exact Ho'.
 Qed.
+
+(* ------------------------------------------------------------------ T3: no step after completion *)
+(* Not an invariant of the machine for arbitrary programs (a task that is re-entered while its body is
+   inside a synchronous .value() can complete in the inner activation and yield again in the outer
+   one; see props/C03.v).  It is one as soon as every resume finds its task uncomputed. *)
+Definition TInv (s : st) : Prop := RInv s /\ nsad (trace s).
+
+Lemma TInv_calm s s' : TInv s -> calm s s' -> TInv s'.
+Proof.
+  intros [HR HN] C. split; [exact (RInv_calm s s' HR C)|].
+  destruct HR as (D & _). destruct (C D) as (_ & _ & _ & _ & evs & T & F). rewrite T.
+  apply (nsad_app_good s'); assumption.
+Qed.
+
+Definition resume_guarded (P : params) (n : nat) (c : cfg) : Prop :=
+  forall k t, (k <= n)%nat -> c_mode (run P k c) = MResume t -> computed t (c_st (run P k c)) = false.
+
+Theorem TInv_step P c :
+  TInv (c_st c) -> (forall t, c_mode c = MResume t -> computed t (c_st c) = false) -> TInv (c_st (step P c)).
+Proof.
+  intros HT Hg. destruct (emits c) eqn:E; [|exact (TInv_calm _ _ HT (step_calm P c E))].
+  destruct (emits_true c E) as (t & tk & k & Hm & G & Hk). specialize (Hg t Hm).
+  destruct c as [m fr s]. cbn [c_mode c_st] in *. subst m. destruct HT as [HR HN].
+  cbn [step c_mode c_frames c_st]. rewrite G, Hk. cbn [c_st]. split.
+  - apply RInv_resume; [exact G|reflexivity|exact HR].
+  - apply nsad_resume; [exact HR|exact Hg|exact HN].
+Qed.
+
+Lemma TInv_run P n : forall c, TInv (c_st c) -> resume_guarded P n c -> TInv (c_st (run P n c)).
+Proof.
+  induction n as [|n IH]; intros c HT Hg; [exact HT|]. rewrite run_S.
+  destruct (is_final (c_mode c)) eqn:Hf; [exact HT|]. apply IH.
+  - apply TInv_step; [exact HT|]. intros t Hm. apply (Hg O t); [lia|exact Hm].
+  - intros k t Hk Hm. specialize (Hg (S k) t ltac:(lia)). rewrite run_S, Hf in Hg. exact (Hg Hm).
+Qed.
+
+Lemma TInv_st0 P : TInv (st0 P).
+Proof. split; [apply RInv_st0|exact I]. Qed.
+
+(* a history in which every root computation is resume-guarded *)
+Fixpoint history_guarded (P : params) (fuel : nat) (ps : list prog) (s : st) : Prop :=
+  match ps with
+  | [] => True
+  | p :: ps' =>
+    resume_guarded P fuel (start (fst (create [] (FTask p) s)) (snd (create [] (FTask p) s))) /\
+    history_guarded P fuel ps' (snd (run_root P fuel p s))
+  end.
+
+Lemma TInv_run_root P fuel p s :
+  TInv s -> resume_guarded P fuel (start (fst (create [] (FTask p) s)) (snd (create [] (FTask p) s))) ->
+  TInv (snd (run_root P fuel p s)).
+Proof.
+  intros HF Hg. unfold run_root.
+  pose proof (calm_create [] (FTask p) s) as Qc. destruct (create [] (FTask p) s) as [h s1]. cbn [fst snd] in Qc, Hg.
+  assert (H1 : TInv s1) by (apply (TInv_calm s); auto).
+  pose proof (TInv_run P fuel (start h s1) H1 Hg) as H2. unfold start in H2.
+  set (c := run P fuel (mkC (MValue h) [FTop] s1)) in *.
+  assert (H3 : TInv (emit (EvSched (Z.of_nat (length (tasks (c_st c)))) (Z.of_nat (length (sb (c_st c)))) (active (c_st c))) (c_st c))).
+  { apply (TInv_calm (c_st c)); [exact H2|]. apply calm_emit. exact I. }
+  destruct (c_mode c); exact H3.
+Qed.
+
+Lemma TInv_run_history P fuel ps : forall s,
+  TInv s -> history_guarded P fuel ps s -> TInv (snd (run_history P fuel ps s)).
+Proof.
+  induction ps as [|p ps IH]; intros s HF Hg; [exact HF|]. cbn [run_history]. destruct Hg as [Hg1 Hg2].
+  pose proof (TInv_run_root P fuel p s HF Hg1) as H1. destruct (run_root P fuel p s) as [o s1]. cbn [snd] in H1, Hg2.
+  specialize (IH s1 H1 Hg2). destruct (run_history P fuel ps s1) as [os s2]. exact IH.
+Qed.
+
+Lemma nsad_split a : forall t i o b, nsad (a ++ EvStep t i o :: b) -> forall o', ~ In (EvDone t o') b.
+Proof.
+  induction a as [|e a IH]; intros t i o b H.
+  - cbn in H. destruct H as [H _]. exact H.
+  - cbn [app nsad] in H. destruct H as [_ H]. exact (IH t i o b H).
+Qed.
+
+Theorem run_case_no_step_after_done P fuel ps :
+  history_guarded P fuel ps (st0 P) ->
+  forall t i o l1 l2, snd (run_case P fuel ps) = l1 ++ EvStep t i o :: l2 -> forall o', ~ In (EvDone t o') l1.
+Proof.
+  intros Hg t i o l1 l2. unfold run_case.
+  pose proof (TInv_run_history P fuel ps (st0 P) (TInv_st0 P) Hg) as H.
+  destruct (run_history P fuel ps (st0 P)) as [os s]. cbn [snd] in *. destruct H as [_ HN].
+  intros E o' Hin. apply rev_split in E. rewrite E in HN.
+  apply (nsad_split _ _ _ _ _ HN o'). apply in_rev in Hin. exact Hin.
+Qed.
+
+(* the same for one run of the machine from any state satisfying the invariant *)
+Theorem run_no_step_after_done P n c :
+  TInv (c_st c) -> resume_guarded P n c ->
+  forall t i o l1 l2, rev (trace (c_st (run P n c))) = l1 ++ EvStep t i o :: l2 -> forall o', ~ In (EvDone t o') l1.
+Proof.
+  intros HT Hg t i o l1 l2 E o' Hin. destruct (TInv_run P n c HT Hg) as [_ HN].
+  apply rev_split in E. rewrite E in HN. apply (nsad_split _ _ _ _ _ HN o'). apply in_rev in Hin. exact Hin.
+Qed.
+
+(* ------------------------------------------------------------------ T3 for tree programs *)
+(* by the C01 invariant (MachineC02.resume_guard_tree) a tree program's run resumes only uncomputed tasks *)
+Lemma tree_resume_guarded P p n :
+  pointwise P -> tree p ->
+  no_unwind P n (start (fst (create [] (FTask p) (st0 P))) (snd (create [] (FTask p) (st0 P)))) ->
+  resume_guarded P n (start (fst (create [] (FTask p) (st0 P))) (snd (create [] (FTask p) (st0 P)))).
+Proof.
+  intros HP Ht Hn k t Hk Hm.
+  destruct (resume_guard_tree P HP p Ht k t) as (tk & G & _); [intros j Hj; apply Hn; lia|exact Hm|].
+  unfold computed. rewrite G. reflexivity.
+Qed.
+
+Theorem tree_no_step_after_done P p n :
+  pointwise P -> tree p ->
+  no_unwind P n (start (fst (create [] (FTask p) (st0 P))) (snd (create [] (FTask p) (st0 P)))) ->
+  forall t i o l1 l2, snd (run_case P n [p]) = l1 ++ EvStep t i o :: l2 -> forall o', ~ In (EvDone t o') l1.
+Proof.
+  intros HP Ht Hn. apply run_case_no_step_after_done. cbn [history_guarded].
+  split; [apply tree_resume_guarded; assumption|exact I].
+Qed.
+
+(* ------------------------------------------------------------------ the unrestricted T3 is false *)
+(* The root task [0] creates h = [1] (which awaits [0]) and calls h.value(): the nested scheduler loop
+   finds [0] unblocked and resumes it a second time from its stored generator; this inner activation
+   creates [2], returns, and so completes [0]; back in the outer activation [0] yields again and is
+   stepped once more - after its EvDone. *)
+Definition cx_prog : prog :=
+  Let (FTask (Yield (YLeaf (LOld [0])) (fun _ => Ret VNone)))
+      (fun h => if fid_eqb h [1] then Sync h (fun _ => Yield YNone (fun _ => Ret VNone)) else Ret VNone).
+Definition cx_P : params := mkP [] 1000 false [].
+
+Lemma cx_trace :
+  snd (run_case cx_P 200%nat [cx_prog]) =
+  [EvStep [0] 0 (Ok VNone); EvStep [1] 0 (Ok VNone); EvStep [0] 1 (Ok VNone); EvDone [0] (Ok VNone);
+   EvStep [1] 1 (Ok VNone); EvDone [1] (Ok VNone); EvGot [0] (Ok VNone)] ++
+  EvStep [0] 2 (Ok VNone) :: [EvSched 1 0 (Some [0])].
+Proof. vm_compute. reflexivity. Qed.
+
+Theorem no_step_after_done_fails :
+  ~ (forall P fuel ps t i o l1 l2,
+       snd (run_case P fuel ps) = l1 ++ EvStep t i o :: l2 -> forall o', ~ In (EvDone t o') l1).
+Proof.
+  intros H. apply (H _ _ _ _ _ _ _ _ cx_trace (Ok VNone)). cbn. right. right. right. left. reflexivity.
+Qed.
+
+(* ------------------------------------------------------------------ non-vacuity *)
+Definition steps_demo : prog :=
+  Yield (YLeaf (LNew (FItem 0 1 (ASet (VInt 5)))))
+        (fun _ => Yield (YLeaf (LNew (FItem 0 2 (ASet (VInt 6)))))
+                        (fun o => match o with Ok v => Ret v | Err e => Raise e end)).
+
+Lemma steps_demo_tree : tree steps_demo.
+Proof.
+  unfold steps_demo. apply tree_yield; [intros l [<-|[]]; repeat constructor|]. intros _.
+  apply tree_yield; [intros l [<-|[]]; repeat constructor|]. intros [v|e]; constructor.
+Qed.
+
+Example steps_demo_runs :
+  let P := mkP [] 1000 false [] in
+  let h := fst (create [] (FTask steps_demo) (st0 P)) in
+  let s1 := snd (create [] (FTask steps_demo) (st0 P)) in
+  no_unwind_b P 100%nat (start h s1) = true /\
+  fst (run_case P 100%nat [steps_demo]) = [Some (Ok (VInt 6))] /\
+  filter (fun e => match e with EvStep _ _ _ | EvDone _ _ => true | _ => false end) (snd (run_case P 100%nat [steps_demo])) =
+  [EvStep [0] 0 (Ok VNone); EvStep [0] 1 (Ok (VInt 5)); EvStep [0] 2 (Ok (VInt 6)); EvDone [0] (Ok (VInt 6))].
+Proof. vm_compute. repeat split. Qed.
